@@ -1114,4 +1114,134 @@ theorem load_gate (o : Obj) (st : IStream) (isLazy : Bool) (c : Cls) (enc : Enc)
   congr 1
   cases st; simp_all
 
+/-! ### sections rung -/
+
+theorem loadSections_inside (c : Cls) (enc : Enc) (isLazy : Bool) (hdr : Bytes) (st : IStream) (img : Bytes)
+    (hd : st.data = img) (he : st.eof = false) (hf : st.fail = false)
+    (h63 : img.length < 9223372036854775808)
+    (hbad : load_sections_entsize_bad (Hdr.e_shnum c enc hdr) (Hdr.ident hdr EI_CLASS) (Hdr.e_shentsize c enc hdr) = false)
+    (hall : ∀ j, j < (Hdr.e_shnum c enc hdr).toNat →
+      (Hdr.e_shoff c enc hdr).toNat + j * (Hdr.e_shentsize c enc hdr).toNat + shdrSize c ≤ img.length ∧
+      SecInside img.length (secHdr c enc img
+        ((Hdr.e_shoff c enc hdr).toNat + j * (Hdr.e_shentsize c enc hdr).toNat) isLazy j)) :
+    (loadSections c enc [] isLazy hdr st).1.st.data = img ∧
+    (loadSections c enc [] isLazy hdr st).1.st.eof = false ∧
+    (loadSections c enc [] isLazy hdr st).1.st.fail = false ∧
+    (loadSections c enc [] isLazy hdr st).1.st.kind = st.kind ∧
+    (loadSections c enc [] isLazy hdr st).2.length = (Hdr.e_shnum c enc hdr).toNat ∧
+    ∀ j (h : j < (loadSections c enc [] isLazy hdr st).2.length),
+      SecSt c enc img ((Hdr.e_shoff c enc hdr).toNat + j * (Hdr.e_shentsize c enc hdr).toNat) isLazy j
+        (!isLazy) [] (loadSections c enc [] isLazy hdr st).2[j] := by
+  unfold loadSections
+  simp only [hbad, Bool.false_eq_true, if_false]
+  by_cases hn : (Hdr.e_shnum c enc hdr).toNat = 0
+  · rw [hn]
+    simp only [loadSectionsLoop, List.reverse_nil, List.length_nil]
+    exact ⟨hd, he, hf, by simp, by simp, fun j h => absurd h (by simp)⟩
+  · have h0 := (hall 0 (by omega)).1
+    have hlt : (Hdr.e_shoff c enc hdr).toNat < 9223372036854775808 := by omega
+    rw [toInt_of_lt _ hlt]
+    have h := loadSectionsLoop_inside c enc isLazy (Hdr.e_shoff c enc hdr).toNat (Hdr.e_shentsize c enc hdr).toNat
+      img h63 (Hdr.e_shnum c enc hdr).toNat 0 { st := st } [] hd he hf
+      (fun j _ hj => hall j (by omega))
+    obtain ⟨g1, g2, g3, g4, l, g5, g6, g7⟩ := h
+    simp only [List.reverse_nil, List.nil_append] at g5
+    refine ⟨g1, g2, g3, g4, by rw [g5, g6], ?_⟩
+    intro j hj
+    have := g7 j (by rw [g5] at hj; exact hj)
+    simp only [Nat.zero_add] at this
+    simp only [g5]
+    exact this
+
+/-! ### names rung -/
+
+/-- the section-name string table of the image (none: `e_shstrndx = SHN_UNDEF`) -/
+def strtabOf (c : Cls) (enc : Enc) (img : Bytes) (shoff entsize : Nat) (isLazy : Bool) (ndx : Nat) : Option Bytes :=
+  if ndx = 0 then none else some (secBytes img (secHdr c enc img (shoff + ndx * entsize) isLazy ndx))
+
+def nameOf (T : Option Bytes) (nameOff : Nat) : Bytes :=
+  match T with
+  | none => []
+  | some T => (Spec.cstrAt T nameOff).getD []
+
+theorem SecSt_withName (c : Cls) (enc : Enc) (img : Bytes) (k : Nat) (isLazy : Bool) (idx : Nat) (res : Bool)
+    (T : Bytes) (b : SecBuf) (h : SecSt c enc img k isLazy idx res [] b) :
+    SecSt c enc img k isLazy idx res
+      ((Spec.cstrAt T (secHdr c enc img k isLazy idx).nameOff.toNat).getD []) (withName T b) := by
+  obtain ⟨fd, L, hb, hL⟩ := h
+  refine ⟨fd, L, ?_, hL⟩
+  have hn : b.nameOff = (secHdr c enc img k isLazy idx).nameOff := by rw [hb]
+  unfold withName
+  rw [hn]
+  cases Spec.cstrAt T (secHdr c enc img k isLazy idx).nameOff.toNat with
+  | none => simpa using hb
+  | some s => rw [hb]; simp
+
+theorem loadNames_inside (c : Cls) (enc : Enc) (isLazy : Bool) (hdr : Bytes) (img : Bytes) (ls : LoadSt)
+    (secs : List SecBuf) (shoff entsize : Nat)
+    (hd : ls.st.data = img) (h63 : img.length < 9223372036854775808)
+    (hbad : load_sections_entsize_bad (Hdr.e_shnum c enc hdr) (Hdr.ident hdr EI_CLASS) (Hdr.e_shentsize c enc hdr) = false)
+    (hndx : (Hdr.e_shstrndx c enc hdr).toNat = 0 ∨ (Hdr.e_shstrndx c enc hdr).toNat < secs.length)
+    (hin : ∀ j, j < secs.length → SecInside img.length (secHdr c enc img (shoff + j * entsize) isLazy j))
+    (hsecs : ∀ j (h : j < secs.length), SecSt c enc img (shoff + j * entsize) isLazy j (!isLazy) [] secs[j]) :
+    ∃ (ls' : LoadSt) (secs' : List SecBuf),
+      loadNames c enc [] hdr ls secs = .ok (ls', secs') ∧
+      ls'.st.data = img ∧ ls'.st.eof = ls.st.eof ∧ ls'.st.fail = ls.st.fail ∧ ls'.st.kind = ls.st.kind ∧
+      secs'.length = secs.length ∧
+      ∀ j (h : j < secs'.length), ∃ res : Bool,
+        SecSt c enc img (shoff + j * entsize) isLazy j res
+          (nameOf (strtabOf c enc img shoff entsize isLazy (Hdr.e_shstrndx c enc hdr).toNat)
+            (secHdr c enc img (shoff + j * entsize) isLazy j).nameOff.toNat) secs'[j] ∧
+        (isLazy = false → res = true) := by
+  unfold loadNames
+  simp only [hbad, Bool.false_eq_true, if_false]
+  by_cases hz : (Hdr.e_shstrndx c enc hdr).toNat = 0
+  · have hz' : (Hdr.e_shstrndx c enc hdr == BitVec.ofNat 16 SHN_UNDEF) = true := by
+      have : Hdr.e_shstrndx c enc hdr = 0#16 := BitVec.eq_of_toNat_eq (by simpa using hz)
+      rw [this]; decide
+    simp only [hz', if_true]
+    refine ⟨ls, secs, rfl, hd, rfl, rfl, rfl, rfl, ?_⟩
+    intro j h
+    refine ⟨!isLazy, ?_, by intro h; simp [h]⟩
+    simpa [strtabOf, hz, nameOf] using hsecs j h
+  · have hz' : (Hdr.e_shstrndx c enc hdr == BitVec.ofNat 16 SHN_UNDEF) = false := by
+      apply Bool.eq_false_iff.mpr
+      intro h
+      have := eq_of_beq h
+      apply hz; rw [this]; decide
+    have hlt : (Hdr.e_shstrndx c enc hdr).toNat < secs.length := by
+      rcases hndx with h | h
+      · exact absurd h hz
+      · exact h
+    simp only [hz', Bool.false_eq_true, if_false, List.getElem?_eq_getElem hlt]
+    generalize hN : (Hdr.e_shstrndx c enc hdr).toNat = N at *
+    have hst := hsecs N hlt
+    have hg := secGetData_SecSt c enc img (shoff + N * entsize) isLazy N (!isLazy) [] secs[N] ls hd h63
+      (hin N hlt) hst
+    obtain ⟨hS, hE, hF, _⟩ := hg
+    have hstr : ∀ x, getString (secGetData c [] ls secs[N]).2 x =
+        .ok (Spec.cstrAt (secBytes img (secHdr c enc img (shoff + N * entsize) isLazy N)) x.toNat) := by
+      intro x
+      obtain ⟨fd, L, hb, _⟩ := hS
+      apply getString_resident img _ (secHdr c enc img (shoff + N * entsize) isLazy N) x
+      · rw [hb]; simp
+      · rw [hb]
+      · exact hin N hlt
+    rw [resolveNames_eq _ _ hstr]
+    refine ⟨_, _, rfl, by simp [hd], hE, hF, by simp, by simp, ?_⟩
+    intro j h
+    have hj : j < secs.length := by simpa using h
+    simp only [List.getElem_map, List.getElem_set]
+    have hT : strtabOf c enc img shoff entsize isLazy N =
+        some (secBytes img (secHdr c enc img (shoff + N * entsize) isLazy N)) := by
+      simp [strtabOf, hz]
+    rw [hT]
+    simp only [nameOf]
+    by_cases hjn : N = j
+    · subst hjn
+      simp only [if_true]
+      exact ⟨true, SecSt_withName _ _ _ _ _ _ _ _ _ hS, fun _ => rfl⟩
+    · simp only [hjn, if_false]
+      exact ⟨!isLazy, SecSt_withName _ _ _ _ _ _ _ _ _ (hsecs j hj), by intro h; simp [h]⟩
+
 end ElfioVerif
